@@ -1,7 +1,96 @@
-import SgVerif.Lmm.Model
+/-
+C15 — sharing solvers never exceed capacities.  Theorems about the model lean/SgVerif/Lmm/Model.lean
+(invariant and its preservation: lean/SgVerif/Lmm/Lemmas.lean).
+
+All theorems quantify over every system `S` (any number of constraints, variables, elements; any rationals) that is
+well formed (`WF`: positive capacities, enabled elements have positive penalty and non-negative weight, the
+per-constraint and per-variable element views carry the same weights), every initial value table and every fuel.
+`eps = 0` is the exact-arithmetic reading of `sg_precision_workamount` (see `dblEq` in the model).
+-/
+import SgVerif.Lmm.Lemmas
 namespace SgVerif.C15
 open SgVerif.Lmm
 
-theorem placeholder : True := trivial
+/-- load of a summing constraint as `Constraint::get_load` computes it = Σ w·value -/
+theorem load_shared (S : Sys) (val : Nat → Rat) (c : Nat) (hf : (S.cnst c).fatpipe = false) :
+    load S val c = sumBy (fun e => if 0 < e.2 then e.2 * val e.1 else 0) (S.cnst c).elems := by
+  unfold load
+  simp only [hf, Bool.not_false, if_true]
+  have : (fun (s : Rat) (e : Nat × Rat) => if 0 < e.2 then s + e.2 * val e.1 else s) =
+      (fun s e => s + (if 0 < e.2 then e.2 * val e.1 else 0)) := by
+    funext s e; split <;> simp
+  rw [this, foldl_add_eq]; simp
+
+theorem load_fat_le (S : Sys) (val : Nat → Rat) (c : Nat) (hf : (S.cnst c).fatpipe = true) (B : Rat) (hB : 0 ≤ B)
+    (h : ∀ e ∈ (S.cnst c).elems, 0 < e.2 → e.2 * val e.1 ≤ B) : load S val c ≤ B := by
+  unfold load
+  simp only [hf, Bool.not_true, Bool.false_eq_true, if_false]
+  have gen : ∀ (l : List (Nat × Rat)) (a : Rat), a ≤ B → (∀ e ∈ l, 0 < e.2 → e.2 * val e.1 ≤ B) →
+      l.foldl (fun s e => if 0 < e.2 then (if s < e.2 * val e.1 then e.2 * val e.1 else s) else s) a ≤ B := by
+    intro l
+    induction l with
+    | nil => intro a ha _; simpa using ha
+    | cons e t ih =>
+      intro a ha hl
+      simp only [List.foldl_cons]
+      apply ih _ _ (fun e he => hl e (by simp [he]))
+      split
+      · split
+        · exact hl e (by simp) ‹_›
+        · exact ha
+      · exact ha
+  exact gen _ 0 hB h
+
+/-- **C15, maxmin, exact arithmetic.**  Whenever `maxmin_solve` returns (the model ran out of neither fuel nor
+assertions), for every active constraint the load computed as `get_load()` does — the weighted *sum* of the rates for a
+summing constraint, the weighted *max* for a FATPIPE one — is at most the capacity; every variable of an enabled
+element set has a rate ≥ 0 and ≤ its bound when it has one; and a variable that is in no enabled element set
+(disabled, suspended, or without constraint) keeps the value it had (0 after `disable_var`). -/
+theorem maxmin_feasible (S : Sys) (hwf : WF S) (val0 : Nat → Rat) (fuel : Nat) (st : St)
+    (h : maxminSolve S 0 fuel val0 = some st) :
+    (∀ c ∈ S.active, load S st.value c ≤ (S.cnst c).bound) ∧
+    (∀ c ∈ S.active, ∀ e ∈ (S.cnst c).elems,
+      0 ≤ st.value e.1 ∧ (0 < (S.var e.1).bound → st.value e.1 ≤ (S.var e.1).bound)) ∧
+    (∀ v, (∀ c ∈ S.active, ∀ e ∈ (S.cnst c).elems, e.1 ≠ v) → st.value v = val0 v) := by
+  unfold maxminSolve at h
+  have hi := init_rinv S hwf val0
+  have hl := loop_inv_frame S hwf fuel _ _ st hi.1 (sv_in_elems S _ hi.1.l hi.1.sel) h
+  obtain ⟨⟨sv', hR⟩, _, hframe⟩ := hl
+  have hG := hR.g
+  refine ⟨?_, ?_, ?_⟩
+  · intro c hc
+    cases hf : (S.cnst c).fatpipe with
+    | false =>
+      rw [load_shared S st.value c hf]
+      have h0 := hG.sh_H0 c hc hf
+      have : sumBy (fun e => if 0 < e.2 then e.2 * st.value e.1 else 0) (S.cnst c).elems =
+          fixedLoad S st.fixed st.value c := by
+        unfold fixedLoad
+        apply sumBy_congr
+        intro e he
+        have hw := hwf.el_w c hc e he
+        cases hfx : st.fixed e.1 with
+        | false => rw [hG.val0 c hc e he hfx]; simp
+        | true =>
+          by_cases h0 : 0 < e.2
+          · simp [h0]
+          · have : e.2 = 0 := by linarith
+            simp [this]
+      rw [this]; linarith
+    | true =>
+      apply load_fat_le S st.value c hf _ (le_of_lt (hwf.cb_pos c hc))
+      intro e he _
+      cases hfx : st.fixed e.1 with
+      | false => rw [hG.val0 c hc e he hfx]; simpa using le_of_lt (hwf.cb_pos c hc)
+      | true => exact hG.ft_feas c hc hf e he hfx
+  · intro c hc e he
+    cases hfx : st.fixed e.1 with
+    | false =>
+      rw [hG.val0 c hc e he hfx]
+      exact ⟨le_refl 0, fun hb => le_of_lt hb⟩
+    | true => exact ⟨le_of_lt (hG.valpos e.1 hfx), hG.valb e.1 hfx⟩
+  · intro v hv
+    rw [(hframe v hv).1]
+    exact hi.2.1 v hv
 
 end SgVerif.C15
